@@ -1,5 +1,5 @@
 """C19 — going idle triggers clean-up; end-of-day never runs over open transactions."""
-from mirlite import callee, ty_str
+from mirlite import switch_target, callee, ty_str
 from client import Fn, FEIG, STREAM, HM, NEXT, variant_switches, follow, is_call, mentions_path
 from expr import show, walk, strip_ref
 from rules_c07 import field_of_agg
@@ -59,7 +59,7 @@ def run(ctx, chk):
                         "clean-up / end-of-day), e.g. through an early error return", "every exit after completion passes the idle test",
                         f.sp(P))
         # failure of end_of_day is propagated
-        prop = [(bb, x) for bb, x in f.ret_writes() if f.classify_ret(x) == "propagate" and
+        prop = [(bb, x) for bb, x in f.ret_writes() if f.classify_ret(x) in ("propagate", "err") and
                 any(y[0] == "call" and y[1] == FEIG + "end_of_day" for y in walk(x))]
         chk.require(len(prop) >= 1, "C19/eod-failure-reported", name,
                     "a failing end_of_day is not reported to the caller", "`?` on end_of_day", f.sp(ebb))
@@ -76,7 +76,7 @@ def run(ctx, chk):
         chk.require(f.b.dominates(cp[0][0], st[0][0]) and cp[0][0] != st[0][0], "C19/cleanup-first", "end_of_day",
                     "End-of-Day is requested before dangling pre-authorisations were reversed", "cancel_pending dominates EndOfDay",
                     f.sp(st[0][0]))
-        prop = [x for bb, x in f.ret_writes() if f.classify_ret(x) == "propagate" and
+        prop = [x for bb, x in f.ret_writes() if f.classify_ret(x) in ("propagate", "err") and
                 any(y[0] == "call" and y[1] == FEIG + "cancel_pending" for y in walk(x))]
         chk.require(len(prop) >= 1, "C19/cleanup-failure-reported", "end_of_day",
                     "a failing clean-up is ignored and End-of-Day still runs", "`?` on cancel_pending", f.sp(cp[0][0]))
@@ -103,7 +103,7 @@ def run(ctx, chk):
                     "C19/reverse-reported", "cancel_pending",
                     "the reversed receipt number does not come from the pending query: %s" % show(arg)[:120],
                     "receipt from get_pending", f.sp(cr[0][0]))
-        prop = [x for bb, x in f.ret_writes() if f.classify_ret(x) == "propagate"]
+        prop = [x for bb, x in f.ret_writes() if f.classify_ret(x) in ("propagate", "err")]
         chk.require(len(prop) >= 2, "C19/pending-failures-reported", "cancel_pending",
                     "failures of the pending query / reversal are not propagated", "", f.sp(), nontrivial=False)
     # ---- get_pending
@@ -159,8 +159,8 @@ def completion_point(f, name):
                 continue
             e = f.ex.operand(t["d"])
             if any(x[0] == "call" and x[1] == NEXT for x in walk(e)):
-                some = dict((val, tb) for val, tb in t["targets"]).get(1)
-                others = [tb for val, tb in t["targets"] if val != 1] + ([t["else"]] if t["else"] != some else [])
+                some = switch_target(t, 1)
+                others = [switch_target(t, 0)] if switch_target(t, 0) != some else []
                 for o in others:
                     if f.b.blocks[o]["term"]["t"] != "unreachable":
                         return o
@@ -172,5 +172,5 @@ def completion_point(f, name):
         e = f.ex.operand(t["d"])
         if e[0] == "discr" and any(x[0] == "call" and x[1] == FEIG + "cancel_transaction_by_receipt_no" for x in walk(e)) and \
                 any(x[0] == "call" and x[1] == "core::ops::try_trait::Try::branch" for x in walk(e)):
-            return dict((val, tb) for val, tb in t["targets"]).get(0)
+            return switch_target(t, 0)
     return None
